@@ -7,7 +7,7 @@ use std::collections::{BinaryHeap, HashMap};
 use std::hash::Hash;
 use std::pin::Pin;
 use std::sync::atomic;
-use std::sync::Arc;
+use std::sync::{Arc, Weak};
 use std::task::{Context, Poll, Waker};
 
 pub(crate) struct QueueInner<S, K: Clone> {
@@ -67,7 +67,10 @@ impl<K: Clone> Ord for ReadyEvent<K> {
 }
 
 struct StreamWaker<S, K: Clone> {
-    inner: Arc<Mutex<QueueInner<S, K>>>,
+    // Weak: a transport keeps the waker of its last pending read, and the queue
+    // owns the transports. A strong reference here would be a cycle that keeps
+    // every connection open after the socket is gone.
+    inner: Weak<Mutex<QueueInner<S, K>>>,
     event: ReadyEvent<K>,
 }
 
@@ -77,7 +80,11 @@ where
     K: Clone + Send + Sync,
 {
     fn wake_by_ref(arc_self: &Arc<Self>) {
-        let mut inner = arc_self.inner.lock();
+        let inner = match arc_self.inner.upgrade() {
+            Some(inner) => inner,
+            None => return,
+        };
+        let mut inner = inner.lock();
         inner.ready_queue.push(arc_self.event.clone());
         if let Some(waker) = inner.waker.take() {
             waker.wake_by_ref();
@@ -117,7 +124,7 @@ where
             };
 
             let waker = Arc::new(StreamWaker {
-                inner: fair_queue.inner.clone(),
+                inner: Arc::downgrade(&fair_queue.inner),
                 event: event.clone(),
             });
             let waker_ref = waker_ref(&waker);
